@@ -197,6 +197,45 @@ fn main() {
             runs += 1;
         }
     }
+    // long streams / large k on the real RNG path (arithmetic for large i, deep skipping phase)
+    if which == "C18" {
+        for (k, n_max, stride) in [(1usize, 300_000usize, 1usize), (7, 200_000, 1), (64, 200_000, 16), (1000, 120_000, 64)] {
+            for seed in [vec![], vec![0u64; 4], vec![u64::MAX >> 1; 3]] {
+                let mut rs = ReservoirSampling::<usize, Script>::new(k, Script::new(seed.clone()));
+                let mut last_change = 0usize;
+                let mut prev: Vec<usize> = vec![];
+                for n in 0..n_max {
+                    let r = std::panic::catch_unwind(std::panic::AssertUnwindSafe(|| rs.add(n)));
+                    if r.is_err() {
+                        violation("C18", format!("k={}, word script {:x?} then counter words, add #{} panicked", k, seed, n + 1));
+                    }
+                    if rs.i() != n + 1 || rs.reservoir().len() != (n + 1).min(k) {
+                        violation("C18", format!("k={}, after add #{}: len {} i() {}", k, n + 1, rs.reservoir().len(), rs.i()));
+                    }
+                    if n % stride == 0 || n + 1 == n_max {
+                        let res = rs.reservoir();
+                        let mut sorted = res.clone();
+                        sorted.sort_unstable();
+                        sorted.dedup();
+                        if sorted.len() != res.len() || res.iter().any(|&p| p > n) {
+                            violation("C18", format!("k={}, after add #{}: reservoir holds a foreign or duplicate position", k, n + 1));
+                        }
+                        if *res != prev {
+                            last_change = n;
+                            prev = res.clone();
+                        }
+                        checks += 1;
+                    }
+                }
+                // a sampler that stopped sampling long ago is a defect of the skipping arithmetic (for k >= 64 the
+                // chance that a correct sampler changes nothing in the second half of the stream is 2^-k)
+                if k >= 64 && last_change + n_max / 2 < n_max {
+                    violation("C18", format!("k={}, word script {:x?}: the reservoir did not change during the last {} adds of a {}-element stream", k, seed, n_max - last_change, n_max));
+                }
+                runs += 1;
+            }
+        }
+    }
     // cuckoo filter on the real RNG path: fill a tiny filter far beyond capacity, no panic, no false negative
     for s in scripts.iter().filter(|s| which == "C01" && (s.len() <= 2 || s.len() == 6)) {
         let mut f = CuckooFilter::<u64, Script>::with_params(Script::new(s.clone()), 2, 4, 8);
